@@ -4,6 +4,7 @@ pub mod corpus;
 pub mod derive;
 pub mod determinism;
 pub mod evalorder;
+pub mod fnvalues;
 pub mod generics;
 pub mod illtyped;
 pub mod inference;
@@ -51,6 +52,7 @@ pub fn all() -> Vec<Box<dyn Family>> {
         Box::new(numbers::Numbers),
         Box::new(vecs::Vecs),
         Box::new(closures::Closures),
+        Box::new(fnvalues::FnValues),
         Box::new(generics::Generics),
         Box::new(methods::Methods),
         Box::new(derive::Derive),
